@@ -50,6 +50,16 @@ MODELS += [
      'expressions("slow")\nleak = k*x**2\ndx_dt = -k*x + y\n'
      'expressions("fast")\ndy_dt = -g*y + leak\n'),
 ]
+MODELS += [
+    # a component that reads the time derivative of another component's state
+    ('parameters("Membrane", g=0.3, e=-60.0)\nparameters("Cap", Cm=2.0)\nstates("Membrane", V=-80.0)\nstates("Cap", q=0.1)\n'
+     'expressions("Membrane")\nileak = g*(V - e)\ndV_dt = -ileak + q\n'
+     'expressions("Cap")\ni_cap = Cm*dV_dt\nzz = i_cap*2 + ileak\ndq_dt = -q + i_cap + zz\n'),
+    # two missing variables, one of them read only by an intermediate nothing depends on
+    ('parameters("A", a=0.5)\nstates("A", x=1.0)\nstates("B", ca=0.2, v=-1.0)\n'
+     'expressions("A")\nmon_only = a*ca\ndx_dt = -a*x + v\n'
+     'expressions("B")\ndca_dt = -ca + x\ndv_dt = -v*ca\n'),
+]
 SCHEMES = ["explicit_euler", "generalized_rush_larsen"]
 
 
@@ -158,9 +168,14 @@ def check_side(prog, full, sub_ode, other_ode, tag, states, params, assigns, bac
                     gen_eval=ge, ref_eval=re_, what=f"{tag}.explicit_euler[{s}] vs states + dt*rhs")
     # the OTHER side's missing_values must deliver exactly what this side misses
     if exp_missing and backend != "c":
+        request = dict(real_missing)   # one request object, kept by the caller and reused
+
         def gen():
-            return pipeline.gen_py(other_ode, backend=backend, missing_values=real_missing, remove_unused=remove_unused)
+            pipeline.gen_py(other_ode, backend="numpy", missing_values=request, remove_unused=remove_unused)
+            return pipeline.gen_py(other_ode, backend=backend, missing_values=request, remove_unused=remove_unused)
         code = checks.generate(prog, f"{tag}|{backend}|other.missing_values|get_code", gen)
+        prog.fact(f"{tag}|{backend}|request-untouched", request == real_missing, "InputMutated",
+                  f"the caller's missing_values request was modified by code generation: {request} (was {real_missing})")
         if code is not None:
             from ..views import PyView
             try:
